@@ -18,6 +18,20 @@ CLAIMED = {
             'Trusted: the CSV renderer and exact field comparison in vh/drivers/c12.py; float fields written with '
             'repr(). Text-parsing fidelity of concrete values is established by conformance runs, not by TLC.',
             '5/C12'),
+    'C13': ('two-level TLA+ specs: mechanism model CatForecastImpl (one action per branch of __next__/get_event_counts/'
+            'get_expected_rates) model-checked by TLC against the property-level module CatForecastAbs; TLC-emitted '
+            'histories driven on real CatalogForecast objects; every recorded pass and result validated by TLC',
+            'TLC explores every history of client operations up to MaxHist (3 quick / 4 thorough) over 7 operations x 42 '
+            'configuration/forecast combinations of the mechanism model and checks ResOk, PassStable, CacheFiltered, '
+            'RatesStable; re-creating either repaired defect in the model must produce a counterexample (non-vacuity). '
+            'Every history of the bounded model (length 2 quick / 3 thorough) plus random histories of length 5..12 is '
+            'run on real objects (in-memory list with/without n_cat, file with store on/off, filters on/off, spatial '
+            'filter on/off); a harness-side wrapper on __next__ records every pass, internal ones included, and TLC '
+            'accepts the trace only if every pass equals the filtered source and every result is the prescribed one.',
+            'Verdicts are taken against CatForecastAbs only (a behaviour-preserving refactor cannot alarm). Trusted: the '
+            'projection of catalogs to event identities, exact recovery of integer bin sums from mean rates, the '
+            'observation wrapper (adds logging around the unchanged method in the harness process).',
+            '5/C13'),
 }
 
 NOT_YET = 'check not built yet in this round (specification planned in DESIGN.md section 5); not claimed until it exists'
